@@ -347,6 +347,46 @@ func VfProvideQueuePersist() {
 
 var _ = vfRegister("VfProvideQueuePersist", VfProvideQueuePersist)
 
+// VfProvideQueueManyRegions (C19): persist + drain of a queue with many regions
+// (positions beyond one hexadecimal digit): same prefixes in the same order with
+// the same keys, and the datastore is emptied.
+func VfProvideQueueManyRegions() {
+	vfHashBits(5)
+	vfHashFixed() // the i-th key gets identifier prefix i (5 bits): its region is the 5-bit prefix i
+	ctx := context.Background()
+	n := 1 + 4*vfChoose("regions/4", (vfParam("N")+3)/4) + vfChoose("regions%4", 4)
+	if n > vfParam("N") {
+		return
+	}
+	q := NewProvideQueue()
+	d := dssync.MutexWrap(ds.NewMapDatastore())
+	mhs := make([]mh.Multihash, n)
+	for i := range mhs {
+		mhs[i] = vfMh(i)
+		q.Enqueue(vfConcretePrefix(mhs[i], 5), mhs[i])
+	}
+	want := vfQueuePrefixes(&q.queue)
+	vfAssert(len(want) == n, "manyregions/setup")
+	err := q.Persist(ctx, d, 1+vfChoose("batch", 3))
+	vfAssert(err == nil, "persist/no-error-on-healthy-datastore")
+	q2 := NewProvideQueue()
+	err = q2.DrainDatastore(ctx, d)
+	vfAssert(err == nil, "drain/no-error-on-healthy-datastore")
+	vfAssert(vfSameList(vfQueuePrefixes(&q2.queue), want), "persist-drain/same-prefixes-in-same-order")
+	for _, h := range mhs {
+		f, _ := trie.Find(q2.keys, keyspace.MhToBit256(h))
+		vfAssert(f, "persist-drain/same-keys")
+	}
+	vfAssert(q2.keys.Size() == n, "persist-drain/no-extra-keys")
+	res, qerr := d.Query(ctx, query.Query{KeysOnly: true})
+	vfAssert(qerr == nil, "drain/query-ok")
+	rest, _ := res.Rest()
+	vfAssert(len(rest) == 0, "drain/datastore-emptied")
+	vfReach("manyregions/end")
+}
+
+var _ = vfRegister("VfProvideQueueManyRegions", VfProvideQueueManyRegions)
+
 // VfReprovideQueue: unique, non-overlapping prefixes in first-enqueue order.
 func VfReprovideQueue() {
 	L, K := vfParam("L"), vfParam("K")
